@@ -97,9 +97,14 @@ def stepOp (st : St) (toks : List String) : St :=
       -- CACHE-CONTROL): only "no raise" is judged and the implementation's tracker state is adopted
       let declared := flags.contains "x"
       -- is a value outside the model involved (URL outside the grammar)?
-      let unk := match protocolRecv genFixes st.cfg.prefixes dat loc src now with
+      let dec := protocolRecv genFixes st.cfg.prefixes dat loc src now
+      let unk := match dec with
         | .ok (some (_, h)) => hasUnk h || declared
         | _ => declared
+      -- the interface assumption between the decoder model and the tracker model, tested on every decoded map
+      let st := match dec with
+        | .ok (some (_, h)) => if udnGuaranteeB h then st else corrFail st "interface: _udn is not the udn of the uuid USN"
+        | _ => st
       { st with pendRes := some (recv genFixes st.cfg ep st.tr dat loc src now),
                 pendClass := classify st.cfg ep dat loc src now, pendUnk := unk, pendEp := some ep }
     | _, _, _, _, _ => corrFail st "bad dg line"
